@@ -24,6 +24,9 @@ Which value a derivative routine "names":
   der_direction_cosine_spheroid -> 1 / phi_spheroid                      (d/drho)
   off_axis_conic_sigma_der    -> 1 / off_axis_conic_sigma                (d/dr, d/dt)
   Q2d_and_der                 -> the sag it returns itself               (d/drho, d/dtheta)
+The documented work array `alphas` of the three Clenshaw derivative sums is part of the call history: one zero-initialised array handed to
+successive calls must give the answers of the same calls without it (unit `workarray`).  Every routine is point-wise in its coordinate
+arguments: f(tile(x)) == tile(f(x)) extends the verdict on a small coordinate set to every element of threshold-sized arrays (unit `large`).
 (whether the returned *sag* equals the explicit modal sum is C10 -- here only the slopes are judged against the derivative of that sum;
 whether the sequences equal the scalar forms on every coordinate shape is C08.)
 """
